@@ -320,7 +320,9 @@ impl<P: HProblem> Obs<P> {
                     let pop = pops
                         .get_current()?
                         .iter()
-                        .map(|i| P::as_perm(i.solution()).map(|t| (t.to_vec(), i.get_objective().map(|o| o.value()))))
+                        // "inversely proportional to tour length": the length of the tour in the instance
+                        // at hand, not whatever value the individual carries
+                        .map(|i| P::as_perm(i.solution()).map(|t| (t.to_vec(), i.get_objective().map(|_| problem.reference(i.solution())))))
                         .collect::<Option<_>>()?;
                     Some(Pre::Pheromone { pm: pm_dump(&pm, n), pop })
                 };
